@@ -402,12 +402,21 @@ theorem line_zero_counterexample :
                  ⟨⟨"m".toList, 1, [], []⟩, some ("t".toList, 0, some "last".toList)⟩] = none := by
   decide
 
-/-- F9d: the search for `.lineno` never looks at the first record: a `RichTraceback` built inside a
-    template, whose frame is the first (and only) record, finds no template line although the record is
-    mapped correctly -/
-theorem first_record_skipped_counterexample :
-    Tb.pickLine [⟨⟨"m".toList, 21, [], []⟩, some ("t".toList, 4, some "x = 1/0".toList)⟩] = none := by
-  decide
+/-- `.lineno` / `.source` are taken from the innermost record that names a template line (a template
+    frame whose line is not 0) – wherever it stands in the traceback, the first record included (a
+    `RichTraceback` built inside a template; repaired by 2db6592) -/
+theorem lineno_from_innermost_template_record (pre post : List Tb.Record) (r : Tb.Record) (fn : Str) (ln : Nat)
+    (hr : r.hit = some (fn, ln)) (hpost : ∀ q ∈ post, q.hit = none) :
+    Tb.pickLine (pre ++ r :: post) = some (fn, ln) :=
+  Tb.pickLine_innermost pre post r fn ln hr hpost
+
+/-- … and the fall-back ("a normal .py file") is taken only when no record names a template line -/
+theorem lineno_fallback_iff_no_template_line (rs : List Tb.Record) (h : ∀ q ∈ rs, q.hit = none) :
+    Tb.pickLine rs = none :=
+  Tb.pickLine_none rs h
+
+example : Tb.pickLine [⟨⟨"m".toList, 21, [], []⟩, some ("t".toList, 4, some "x = 1/0".toList)⟩]
+    = some ("t".toList, 4) := by decide
 
 /-! ## warnings -/
 
